@@ -75,6 +75,7 @@ def run(ctx):
     pats += ['MAJOR.0Y.PATCH', 'MAJOR.0G.0V', 'MINOR.0Y.0M', 'vMAJOR.0Y.INC0[-TAG]', 'MAJOR.YYYY.00J', 'vMAJOR.YYYY.0W']   # zero-padded parts after the first component
     # ... followed by the end of an optional group, by a non-optional tag, or glued to the next part
     pats += ['vYYYY.0M[.0D][-TAG]', 'YYYY.0M[.0D]', 'vYYYY.0M-TAG', 'vYYYY.0M0D[-TAG]', 'vMAJOR.0Y0M.PATCH', 'YYYY.0M[.0D[.BUILD]]', 'vYYYY.0W[.00J]']
+    pats += ['vMAJOR.MINOR.PATCH[-TAG.NUM]', 'MAJOR.MINOR.PATCH[.PYTAG.NUM]', 'vYYYY.BUILD[-TAG.NUM]']       # a separator between the tag and its number (1.2.3-rc.1)
     pats = list(dict.fromkeys(pats))
     # ---- design
     sel = rng.sample(pats, ctx.pick(40, 300))
